@@ -611,11 +611,9 @@ Proof.
       rewrite <- (nth_error_upd_other es h j new) by lia. apply Hc. lia.
     + intros j. rewrite Hn.
       destruct (Nat.leb_spec (S h) j), (Nat.ltb_spec j (S h + n)), (Nat.leb_spec h j), (Nat.ltb_spec j (h + S n));
-        cbn [andb]; try lia; try reflexivity.
-      * apply nth_error_upd_other. lia.
-      * assert (j = h) by lia. subst j. apply nth_error_upd_same. exact Hh.
-      * apply nth_error_upd_other. lia.
-      * apply nth_error_upd_other. lia.
+        cbn [andb]; try lia; try reflexivity;
+        first [ apply nth_error_upd_other; lia
+              | assert (j = h) by lia; subst j; apply nth_error_upd_same; exact Hh ].
 Qed.
 
 Lemma cas_all_none : forall n es h cur new, cas_all es h n cur new = None ->
@@ -696,7 +694,9 @@ Lemma div_ceil_lt_inv a b h : b <> 0 -> h < div_ceil a b -> h * b < a.
 Proof.
   intros Hb H. unfold div_ceil in H.
   pose proof (N.div_mod (a + b - 1) b Hb). pose proof (N.mod_lt (a + b - 1) b Hb).
-  assert (h + 1 <= (a + b - 1) / b) by lia. nia.
+  assert (h + 1 <= (a + b - 1) / b) by lia.
+  set (q := (a + b - 1) / b) in *. set (r := (a + b - 1) mod b) in *.
+  assert (b * (h + 1) <= b * q) by (apply N.mul_le_mono_l; lia). lia.
 Qed.
 
 Section Inv.
@@ -706,7 +706,8 @@ Section Inv.
   Lemma nbf_le_ntab fr : nbf g fr <= ntab g fr * THUGE g.
   Proof.
     unfold nbf, ntab. apply div_ceil_le; [apply HF_nz|].
-    pose proof (div_ceil_ge fr (TF g) (TF_nz g)). rewrite TF_eq in H. lia.
+    pose proof (div_ceil_ge fr (TF g) (TF_nz g)) as H. set (m := div_ceil fr (TF g)) in *.
+    rewrite TF_eq in H. lia.
   Qed.
 
   Lemma frame_lt_nbf fr f : f < fr -> f / HF g < nbf g fr.
@@ -780,7 +781,7 @@ Section Inv.
     LowerInv g (set_bf (set_ent l h e') h rows').
   Proof.
     intros (L1 & L2 & L3 & L4) He Hb Hok. unfold LowerInv, set_bf, set_ent; cbn.
-    rewrite !upd_length. repeat split; [exact L1|exact L2| |].
+    rewrite !upd_length. split; [exact L1|]. split; [exact L2|]. split.
     - intros j e rows Hj Hr. destruct (Nat.eq_dec j (nn h)) as [->|Hne].
       + rewrite nth_error_upd_same in Hj by (apply nth_error_Some; exact He).
         rewrite nth_error_upd_same in Hr by (apply nth_error_Some; exact Hb).
@@ -800,7 +801,7 @@ Section Inv.
     (forall h e, nth_error es' (nn h) = Some e -> bf l h = None -> e = 0) ->
     LowerInv g {| frames := frames l; bfs := bfs l; ents := es' |}.
   Proof.
-    intros (L1 & L2 & L3 & L4) Hl H3 H4. unfold LowerInv; cbn. repeat split; [exact L1|congruence| |].
+    intros (L1 & L2 & L3 & L4) Hl H3 H4. unfold LowerInv; cbn. split; [exact L1|]. split; [congruence|]. split.
     - intros j e rows Hj Hr. specialize (H3 (N.of_nat j) e rows). unfold bf, nn in H3.
       rewrite Nat2N.id in H3. auto.
     - intros j e Hj Hr. specialize (H4 (N.of_nat j) e). unfold bf, nn in H4.
@@ -850,7 +851,7 @@ Section Inv.
     unfold lower_invb. rewrite !andb_true_iff. intros ((H1 & H2) & H3).
     apply Nat.eqb_eq in H1. apply Nat.eqb_eq in H2.
     apply lower_invb_from_sound in H3. destruct H3 as (H3 & H4).
-    repeat split; [exact H1|exact H2| |exact H4].
+    split; [exact H1|]. split; [exact H2|]. split; [|exact H4].
     intros h e rows He Hr. apply (H3 h e rows He Hr).
   Qed.
 End Inv.
